@@ -1207,3 +1207,59 @@ func init() {
 		return ex.tt.UF("strmap_"+name, SString, x)
 	}
 }
+
+// more of package strings: exact where SMT-LIB has the operator, concrete evaluation when all arguments are
+// constants, otherwise unsupported (INCONCLUSIVE) rather than guessed
+func init() {
+	intercepts["strings.Replace"] = func(ex *Exec, fr *Frame, a []Value, s ssa.Instruction) Value {
+		n, ok := a[3].(*Term).BVVal()
+		if ok && int64(n) < 0 {
+			return intercepts["strings.ReplaceAll"](ex, fr, a[:3], s)
+		}
+		x, o, nw := a[0].(*Term), a[1].(*Term), a[2].(*Term)
+		xs, ok1 := x.StrVal()
+		os_, ok2 := o.StrVal()
+		ns, ok3 := nw.StrVal()
+		if ok && ok1 && ok2 && ok3 {
+			return ex.tt.Str(strings.Replace(xs, os_, ns, int(int64(n))))
+		}
+		if ok && n == 1 {
+			return ex.tt.mk("str.replace", SString, "", 0, x, o, nw)
+		}
+		panic(ex.unsupported("strings.Replace with a symbolic or bounded count"))
+	}
+	intercepts["strings.HasSuffix"] = func(ex *Exec, fr *Frame, a []Value, s ssa.Instruction) Value {
+		x, p := a[0].(*Term), a[1].(*Term)
+		if xs, ok := x.StrVal(); ok {
+			if ps, ok := p.StrVal(); ok {
+				return ex.tt.Bool(strings.HasSuffix(xs, ps))
+			}
+		}
+		return ex.tt.mk("str.suffixof", SBool, "", 0, p, x)
+	}
+	intercepts["strings.Index"] = func(ex *Exec, fr *Frame, a []Value, s ssa.Instruction) Value {
+		x, p := a[0].(*Term), a[1].(*Term)
+		if xs, ok := x.StrVal(); ok {
+			if ps, ok := p.StrVal(); ok {
+				return ex.tt.BV(uint64(int64(strings.Index(xs, ps))), 64)
+			}
+		}
+		panic(ex.unsupported("strings.Index on symbolic strings"))
+	}
+	intercepts["strings.Repeat"] = func(ex *Exec, fr *Frame, a []Value, s ssa.Instruction) Value {
+		xs, ok1 := a[0].(*Term).StrVal()
+		n, ok2 := a[1].(*Term).BVVal()
+		if ok1 && ok2 && int64(n) >= 0 && int64(n) < 1024 {
+			return ex.tt.Str(strings.Repeat(xs, int(n)))
+		}
+		panic(ex.unsupported("strings.Repeat on symbolic arguments"))
+	}
+	intercepts["strings.Count"] = func(ex *Exec, fr *Frame, a []Value, s ssa.Instruction) Value {
+		xs, ok1 := a[0].(*Term).StrVal()
+		ps, ok2 := a[1].(*Term).StrVal()
+		if ok1 && ok2 {
+			return ex.tt.BV(uint64(strings.Count(xs, ps)), 64)
+		}
+		panic(ex.unsupported("strings.Count on symbolic strings"))
+	}
+}
